@@ -1146,7 +1146,13 @@ func (p *Prog) foundIndexFacts(a Atom) []string {
 					okShape = false
 				}
 			case *ssa.Phi:
-				walk(y)
+				// a merge of the "found" variable is walked into; a loop counter (a merge whose
+				// constant source is not the sentinel: `for i := 0; …`) is the index itself
+				if phiHasOtherConst(y, -1, map[*ssa.Phi]bool{}) {
+					srcs = append(srcs, src{e, x.Block().Preds[i]})
+				} else {
+					walk(y)
+				}
 			default:
 				srcs = append(srcs, src{e, x.Block().Preds[i]})
 			}
@@ -1489,4 +1495,25 @@ func (p *Prog) boolHelperFacts(a Atom) []string {
 		return []string{NormAtom(dnf[0][0].Cond, !dnf[0][0].Pol)}
 	}
 	return nil
+}
+
+// phiHasOtherConst: some constant source of the merge (through nested merges) differs from k.
+func phiHasOtherConst(ph *ssa.Phi, k int64, seen map[*ssa.Phi]bool) bool {
+	if seen[ph] {
+		return false
+	}
+	seen[ph] = true
+	for _, e := range ph.Edges {
+		switch y := e.(type) {
+		case *ssa.Const:
+			if c, ok := ConstInt(y); ok && c != k {
+				return true
+			}
+		case *ssa.Phi:
+			if phiHasOtherConst(y, k, seen) {
+				return true
+			}
+		}
+	}
+	return false
 }
